@@ -10,6 +10,7 @@ boundary's term exactly at last_purged_index, and None otherwise (exact decision
 from .common import *
 
 EXPLANATION = __doc__
+TECHNIQUE = "static analysis of rustc MIR facts: dominance/guard and value-provenance rules plus exact symbolic decision tables of loop-free guard functions (exhaustive over weak orderings)"
 LEVEL_NOTE = "PARTIAL claim: decides the bounds / bookkeeping clauses named in the description, not equality with a reference log over operation sequences (TermSegments' loop, the SkipMap and the atomics' interleavings are not modelled)."
 
 
